@@ -102,7 +102,7 @@ def make_unit(rng, uid, for_verify=False):
             elif r < 0.9 or i == 0 or is_union:
                 tname, ln = rng.choice(sorted(OTHERS)), None
             else:
-                tname, ln = "struct s%d_%d" % (uid, rng.randrange(i)), (None if rng.random() < 0.7 else rng.randint(1, 3))
+                tname, ln = struct_tag(u["structs"][rng.randrange(i)]), (None if rng.random() < 0.7 else rng.randint(1, 3))
             if i == 1 and j == 0:
                 tname, ln = rng.choice(["long", "double", "void *", "uint64_t"]), None   # 8-aligned head ...
             elif i == 1 and j == nf - 1:                                              # ... and a small tail: padding follows
